@@ -337,12 +337,14 @@ def native_scan(seed: int) -> tuple[dict, list, int]:
         else:
             places.append(([sig[1], 3, sig[0]], [2, 0]))
         for rad, loc in places:
-            for pi, ps in enumerate(
-                [generic_params(g.num_params, seed, 'nat')]
-                + [[v] * g.num_params for v in grid(seed)],
-            ):
+            fixed = [[v] * g.num_params for v in grid(seed)[:5]]
+            seeded = [[grid(seed)[5]] * g.num_params,
+                      generic_params(g.num_params, seed, 'nat')]
+            for pi, ps in enumerate(fixed + seeded):
                 n += 1
-                case = {'radixes': rad, 'seed': seed,
+                # fixed grid values first: the simplest counterexample (and
+                # its replay file) is the same for every VERIF_SEED
+                case = {'radixes': rad, 'seed': seed if pi >= 5 else 0,
                         'ops': [[spec, loc, ps]]}
                 c = build_circuit(case)
                 nc = bqskitrs.Circuit(c)
@@ -536,6 +538,19 @@ QUICK_W3 = [(2, 3, 4), (3, 2, 2)]
 QUICK_W2_FULL = [(2, 2), (2, 3), (3, 3)]
 
 
+def _process_age() -> float:
+    """Seconds since this process started (Linux /proc; 0.0 if unknown)."""
+    try:
+        import os
+        with open('/proc/self/stat') as fh:
+            start_ticks = float(fh.read().rsplit(')', 1)[1].split()[19])
+        with open('/proc/uptime') as fh:
+            up = float(fh.read().split()[0])
+        return max(0.0, up - start_ticks / os.sysconf('SC_CLK_TCK'))
+    except Exception:  # noqa
+        return 0.0
+
+
 def run(ctx: Ctx) -> None:
     ctx.cov['rule'] = RULE
     ctx.assumptions += [
@@ -553,8 +568,11 @@ def run(ctx: Ctx) -> None:
         'library supports (Minimization: all targets; QFactor: unitary '
         'targets, gates the engine can optimize)',
     ]
-    budget = 60.0 if ctx.quick else 1500.0
-    deadline = ctx.t0 + budget
+    # the quick budget counts from process start (imports can take 20 s on
+    # a loaded machine), so that the whole run stays within ~90 s
+    age = _process_age()
+    budget = max(25.0, 70.0 - age) if ctx.quick else 1500.0
+    deadline = time.time() + budget
     broken, viol, n = native_scan(ctx.seed)
     ctx.cov['evaluations'] += n
     ctx.part('native', single_gate_cases=n,
@@ -567,7 +585,7 @@ def run(ctx: Ctx) -> None:
         j['deadline'] = deadline
     done_jobs = 0
     unfinished: list = []
-    for r in pmap(_dispatch, jobs, procs=ctx.procs, deadline=deadline + 10):
+    for r in pmap(_dispatch, jobs, procs=ctx.procs, deadline=deadline + 6):
         done_jobs += 1
         ctx.cov['evaluations'] += r['n']
         ctx.cov['distinct_nontrivial'] += r['nontriv']
@@ -596,6 +614,7 @@ def run(ctx: Ctx) -> None:
             d *= r_
         order = {'native': 0, 'cost': 1, 'inst': 2}[rp['kind']]
         return (order, len(c['ops']), d, rp.get('starts', 0),
+                '' if rp['kind'] == 'native' else      # keep scan order
                 json.dumps(rp, sort_keys=True, default=str))
     for s, w, rp in sorted(viol, key=size):
         ctx.violation(s, w, rp)
